@@ -58,6 +58,10 @@ def plan(tier, seed):
                                                              "both", "sigma-arr"]),
               rho=pick(rng, [1, 1, 0.3, 3.0]), x0=bool(rng.random() < 0.4),
               acc=bool(rng.random() < 0.7), ascale=pick(rng, [1, 1, 1, 1e-8, 1e-4, 1e4]))
+        if i % 12 == 5:
+            # python -O: "combinations a solver cannot handle raise an error" must not rest on
+            # assert statements
+            P.cases[-1]["pyopt"] = True
     # operators for which the constant vector is an exact eigenvector of A^H A (+ G^H G) for
     # a non-dominant eigenvalue (identity, circular convolution, with / without a
     # finite-difference G), solved with defaulted step sizes
